@@ -122,6 +122,8 @@ var Shares = []Share{
 	{To: "C18", From: "C20", Rule: "R2", Key: reBodyBuf, Why: "as C05.R4", Seed: "C18-F"},
 	{To: "C18", From: "C20", Rule: "R4", Why: "the middleware turns an API error of ProcessRequestBody into an aborted exchange", Seed: "C18-H"},
 
+	{To: "C18", From: "C07", Rule: "R9", Why: "the client receives the interruption's status only if the delegate writer accepts it", Seed: "fix30"},
+
 	// C19: audit and error logging
 	{To: "C19", From: "C06", Rule: "R1", Key: `(?i)audit`, Why: "the audit configuration of the WAF must not be rewritten by a transaction", Seed: "C19-E"},
 	{To: "C19", From: "C05", Rule: "R1", Key: `(?i)audit`, Why: "as C06.R1", Seed: "C19-E"},
